@@ -384,10 +384,12 @@ class FmModels(Models):
             return fconst(-(P - n))
         return fvar("c%x" % (n % 2 ** 32))
 
-    def v4(self, ip, st, a):
+    def v4(self, ip, st, a, kind="avx2"):
         v = ip.deconst(ip.deref_val(st, a))
         if v[0] == "v4":
             return v
+        if kind == "ifma":
+            return self.v4_ifma(v)
         # a constant FieldElement2625x4([u32x8; 5]): vector k holds (a_2k, b_2k, a_2k+1, b_2k+1, c_2k, d_2k, c_2k+1, d_2k+1)
         leaves = []
 
@@ -415,11 +417,46 @@ class FmModels(Models):
             lanes[2][2 * k], lanes[3][2 * k], lanes[2][2 * k + 1], lanes[3][2 * k + 1] = w[4], w[5], w[6], w[7]
         return ("v4", tuple(self.small_const(self.int_of_limbs(l)) for l in lanes))
 
+    def v4_ifma(self, v):
+        """a constant F51x4([u64x4; 5]): vector k holds limb k (radix 2^51) of the lanes A, B, C, D"""
+        leaves = []
+
+        def walk(x):
+            if x[0] == "i":
+                leaves.append(x)
+            elif x[0] in ("st", "arr"):
+                for y in x[1]:
+                    walk(y)
+            else:
+                leaves.append(None)
+        walk(v)
+        if any(x is None or x[1] != x[2] for x in leaves):
+            return None
+        if len(leaves) == 40:
+            leaves = [I(leaves[2 * j][1] | (leaves[2 * j + 1][1] << 32)) for j in range(20)]
+        if len(leaves) != 20:
+            return None
+        out = []
+        for lane in range(4):
+            n = sum(leaves[4 * k + lane][1] << (51 * k) for k in range(5)) % P
+            out.append(self.small_const(n))
+        return ("v4", tuple(out))
+
+    IFMA = r"vector::ifma::field::F51x4(?:Unreduced|Reduced)"
+
     def vector_call(self, ip, st, S, args, dty):
-        VEC = self.VEC
+        kind = "ifma" if S(self.IFMA) else "avx2"
+        VEC = self.IFMA if kind == "ifma" else self.VEC
         if not S(VEC):
             return NotImplemented
-        V = lambda i: self.v4(ip, st, args[i]) if i < len(args) else None
+        V = lambda i: self.v4(ip, st, args[i], kind) if i < len(args) else None
+        if kind == "ifma":
+            if S(r"core::convert::From<[\w:]*F51x4(Unreduced|Reduced)>>::from$|impl core::convert::From<[\w:]*F51x4(Unreduced|Reduced)> for [\w:]*F51x4(Unreduced|Reduced)>::from$") and len(args) == 1:
+                return V(0) or TOP            # reduction / widening: the same four field elements
+            if S(r"F51x4Reduced::square$") and args:
+                v = V(0)
+                self.ops += 1
+                return ("v4", tuple(fmul(x, x) for x in v[1])) if v is not None else TOP
         L = "ABCD"
         if S(VEC + r"::new$") and len(args) == 4:
             fs = [self.fe(ip, st, a) for a in args]
@@ -432,12 +469,12 @@ class FmModels(Models):
             v = V(0)
             return ("arr", v[1]) if v is not None else TOP
         if S(VEC + r"::shuffle$") and len(args) == 2:
-            v, name = V(0), self.enum_name(ip, r"vector::avx2::field::Shuffle$", args[1])
+            v, name = V(0), self.enum_name(ip, r"vector::%s::field::Shuffle$" % kind, args[1])
             if v is None or not name or len(name) != 4 or any(c not in L for c in name):
                 return TOP
             return ("v4", tuple(v[1][L.index(c)] for c in name))
         if S(VEC + r"::blend$") and len(args) == 3:
-            v, o, name = V(0), V(1), self.enum_name(ip, r"vector::avx2::field::Lanes$", args[2])
+            v, o, name = V(0), V(1), self.enum_name(ip, r"vector::%s::field::Lanes$" % kind, args[2])
             if v is None or o is None or not name or any(c not in L for c in name):
                 return TOP
             return ("v4", tuple(o[1][i] if L[i] in name else v[1][i] for i in range(4)))
